@@ -8,7 +8,7 @@ THEOREMS = ["C07_constants", "C07_fresh_inv", "C07_step_bounds", "C07_recurrence
 RULE = ("streams of random/boundary length under random/special 40-byte keys, randomly partitioned into encrypt "
         "calls (empty calls, calls > 40 bytes), ciphertext independently re-partitioned into decrypt calls on a second "
         "object; thorough adds the full step table (40 positions x 256 previous x 256 inputs) per direction. "
-        "distinct = distinct (key, stream, partition) lines; non-trivial = stream length >= 1")
+        "mixed sessions: one object driven through every entry point (raw, typed helpers, Read/Write wrappers with fragmentation and injected failures, accessor halves, split / clone / unsplit) in random order against an independent simulation. distinct = distinct (key, stream, partition) lines; non-trivial = stream length >= 1")
 EXPLANATION = "theorems over the Lean model (recurrence = Spec, chunking, exact inverse, round trip for every stream/partition) + differential run of model vs real crate + independent Python recurrence oracle"
 ASSUMPTIONS = ["u8 wrapping_add/wrapping_sub/xor modelled by Lean UInt8 arithmetic", "slice indexing panics modelled explicitly"]
 
@@ -66,6 +66,10 @@ def generate(rng, tier):
             cases.append(session_case(rng, special_key(rng), rbytes(rng, 1 << 20), "1MiB-stream"))
     cases += sibling_key_cases(rng, "v")
     cases += typed_at_every_position_cases(rng, "v")
+    # the recurrence must come out of EVERY entry point and object form: one connection object driven in random order through the raw
+    # calls, typed helpers, Read/Write wrappers (fragmenting readers/writers, injected failures), accessor halves, split, clone, unsplit
+    import hdr_mix
+    cases += hdr_mix.cases(rng, Case, [("v", "s"), ("v", "c")], 100 if tier == "quick" else 3000, 90, special_key=special_key)
     if tier == "thorough":
         cases += step_table_cases(rng, "v")
     return cases
